@@ -957,7 +957,8 @@ func runFuzz(id string, ft fuzzTarget, replayDir, bin string) (map[string]any, [
 	// crashers written by go test land under the package's testdata/fuzz/<name>/
 	crashDir := filepath.Join(pkgDir(id), "testdata", "fuzz", ft.Name)
 	var viol []string
-	if err != nil && strings.Contains(out, "Failing input written to") {
+	// a failing generated input ("Failing input written to") or a failing entry of the seed corpus
+	if err != nil && (strings.Contains(out, "Failing input written to") || strings.Contains(out, "--- FAIL: "+ft.Name)) {
 		fs, _ := filepath.Glob(filepath.Join(work, "fuzzfail-*.json"))
 		if len(fs) > 0 {
 			sort.Strings(fs)
